@@ -452,7 +452,7 @@ class Evaluator:
         if ty_ in ("usize", "u32", "u64", "u16", "u8"):
             if v < 0:
                 raise Panic("negative-to-unsigned-cast", e.get("l"))  # wraps around: always a logic error here
-            return int(v)
+            return int(v) % (1 << {"usize": 64, "u64": 64, "u32": 32, "u16": 16, "u8": 8}[ty_])  # `as` truncates
         if ty_ in ("isize", "i32", "i64", "i16", "i8"):
             return SInt(v)
         return v
